@@ -316,6 +316,19 @@ int drv_world(void) {
       }
       free(c);
       free(p);
+    } else if (!strcmp(op, "symlink")) {
+      /* symlink <path> <target> <mtime>: hand-written queue content */
+      char *p = abspath(t[1]);
+      char *tg = unhex(t[2]);
+      mkdirs_for(p);
+      if (symlink(tg, p)) {
+        printf("env-error symlink %s\n", strerror(errno));
+      } else {
+        struct timespec ts[2] = {{atol(t[3]), 0}, {atol(t[3]), 0}};
+        utimensat(AT_FDCWD, p, ts, AT_SYMLINK_NOFOLLOW);
+      }
+      free(p);
+      free(tg);
     } else if (!strcmp(op, "rm")) {
       char *p = abspath(t[1]);
       if (unlink(p)) {
